@@ -272,6 +272,51 @@ fn judge_example(name: &str, o: &mut Outcome) {
     }
 }
 
+/// `concat(x, nothing)` and `concat(nothing, x)` as an output datum: the datum is x, on either side
+fn judge_concat_absent(o: &mut Outcome) {
+    use crate::common::tirb;
+    use crate::gen::tirgen;
+    use tx3_tir::compile::Compiler as _;
+    use tx3_tir::model::v1beta0 as tir;
+    use tx3_tir::reduce::Apply as _;
+    use crate::common::pipeline::compiler;
+    use crate::common::plutus::PData;
+    let datum_at = tirgen::PLACEMENTS.iter().position(|p| *p == "outputs[0].datum").expect("placement");
+    let values: Vec<(&str, tir::Expression, PData)> = vec![
+        ("bytes", tir::Expression::Bytes(vec![0x42, 0xab, 0xcd]), PData::Bytes(vec![0x42, 0xab, 0xcd])),
+        ("string", tir::Expression::String("ab".into()), PData::Bytes(b"ab".to_vec())),
+    ];
+    for (name, x, want) in values {
+        for (side, e) in [
+            ("absent-on-the-left", tir::BuiltInOp::Concat(tir::Expression::None, x.clone())),
+            ("absent-on-the-right", tir::BuiltInOp::Concat(x.clone(), tir::Expression::None)),
+        ] {
+            o.evals += 1;
+            let tx = tirgen::place(datum_at, tirb::builtin(e));
+            let compiled = panics::catch(|| {
+                let t = tx.reduce().map_err(|e| e.to_string())?;
+                let mut c = compiler(&PP::default());
+                c.compile(&tx3_tir::encoding::AnyTir::V1Beta0(t)).map_err(|e| e.to_string())
+            });
+            let got = match compiled {
+                Ok(Ok(c)) => txdecode::decode_tx(&c.payload).ok().and_then(|r| r.outputs.first().map(|o| o.datum_raw.clone())),
+                _ => None,
+            };
+            match got {
+                Some(Some(raw)) if plutus::read_bytes(&raw).map(|d| d == want).unwrap_or(false) => o.class("concat-absent:the-other-operand"),
+                other => {
+                    o.class("concat-absent:differs");
+                    o.violate(Violation::new(
+                        format!("output.datum|concat-{side}|{name}"),
+                        format!("concat of {name} with an absent operand ({side}) denotes the {name}; the compiled output carries {:?}", other.map(|d| d.map(hex::encode))),
+                    ));
+                }
+            }
+            o.key(hash64(&(name, side)));
+        }
+    }
+}
+
 impl Prop for C01 {
     fn id(&self) -> &'static str {
         "C01"
@@ -307,6 +352,8 @@ impl Prop for C01 {
         for name in ACCEPTED_EXAMPLES {
             sink.case(|| json!({"kind": "example-accepted", "choices": [name], "example": name}));
         }
+        // concatenation with an absent operand (an input read as data whose UTxO carries no datum): the other operand
+        sink.case(|| json!({"kind": "concat-with-absent-operand", "choices": ["concat-absent"], "concat_absent": true}));
         let mut gen = |c: &mut Chooser| prog::generate(c);
         dbx::explore(k_for(tier), &mut gen, &mut |choices, devs, sc| {
             sink.case(|| json!({"kind": format!("program-{devs}-deviations"), "choices": choices, "labels": sc.labels}));
@@ -316,6 +363,10 @@ impl Prop for C01 {
         let mut o = Outcome::default();
         if let Some(name) = case["example"].as_str() {
             judge_example(name, &mut o);
+            return o;
+        }
+        if case["concat_absent"] == true {
+            judge_concat_absent(&mut o);
             return o;
         }
         let choices: Vec<usize> = case["choices"].as_array().map(|a| a.iter().filter_map(|x| x.as_u64().map(|x| x as usize)).collect()).unwrap_or_default();
